@@ -17,9 +17,9 @@ CONFIGS = [
     [("c2", L2), ("c1", L1), ("c2", L2)],
 ]
 PGRID_Q = [F(0), F(1, 20), F(3, 50), F(1, 10), F(1)]
-# (with values a few parts in a million above each risk limit: "at most the limit" is not "close to the limit")
-PGRID_T = [F(0), F(1, 100), F(1, 20), F(1, 20) * (1 + F(1, 2 ** 18)), F(3, 50), F(1, 10), F(1, 10) * (1 + F(1, 2 ** 18)),
-           F(1, 2), F(1)]
+# (values a few parts in a million above each risk limit are exercised by the boundary behaviours added in run():
+#  putting them into this grid made TLC's successor enumeration - (|grid| x |lengths|)^assertions per step - run out of memory)
+PGRID_T = [F(0), F(1, 100), F(1, 20), F(3, 50), F(1, 10), F(1, 2), F(1)]
 
 
 def tla_r(x):
